@@ -59,6 +59,7 @@ Fixpoint dec_stmt (v : wv) : option pstmt :=
   | WL [WI 5; x; c; WL b] =>
       match un_text x, dec_ann c, decs b with Some n, Some a, Some bs => Some (PFor n a bs) | _, _, _ => None end
   | WL [WI 6] => Some PBreak
+  | WL [WI 10] => Some PContinue
   | WL [WI 7; a] => option_map PWrite (dec_ann a)
   | WL [WI 8; a] => option_map PSleep (dec_ann a)
   | WL [WI 9; a] => option_map PExprS (dec_ann a)
@@ -88,6 +89,8 @@ Fixpoint enc_node (n : cnode) : wv :=
   | NWhile c b => WL [WI 4; WI c; WL (encs b)]
   | NFor x c b => WL [WI 5; wtext x; WI c; WL (encs b)]
   | NBreak => WL [WI 6]
+  | NContinue => WL [WI 10]
+  | NReturn => WL [WI 11]
   | NWrite id => WL [WI 7; WI id]
   | NSleep id => WL [WI 8; WI id]
   | NExprS id => WL [WI 9; WI id]
